@@ -4,7 +4,8 @@ Real `threading.Thread`s run real tlslite-ng code; exactly one of them runs at a
 token is passed through per-thread semaphores).  `sys.settrace` gives a hook before every
 source line (or every bytecode instruction in opcode mode) executed in the traced files;
 the schedule says at which global hook count the running thread is pre-empted and which
-thread continues.  The object's lock is replaced by a CoopLock with the semantics of
+thread continues.  Callbacks on_point / on_switch let the harness move a fake clock forward between
+pre-emption points and while a thread is descheduled.  The object's lock is replaced by a CoopLock with the semantics of
 threading.Lock whose blocking acquire hands the token to the lock owner instead of
 blocking the OS thread (otherwise a pre-empted owner could never be resumed).
 
@@ -38,6 +39,8 @@ class Sched(object):
         self.main_gate = threading.Semaphore(0)
         self.deadlock = False
         self.failure = None
+        self.on_point = None          # called at every hook (e.g. the fake clock moves on)
+        self.on_switch = None         # called at every context switch (time passes while descheduled)
 
     # ---- identification
     def tid(self):
@@ -62,6 +65,8 @@ class Sched(object):
 
     def point(self, i):
         self.step += 1
+        if self.on_point is not None:
+            self.on_point()
         if self.step > self.max_steps:
             raise Deadlock('step limit')
         if self.pi < len(self.preempts) and self.step >= self.preempts[self.pi][0]:
@@ -98,6 +103,8 @@ class Sched(object):
             self.deadlock = True        # the remaining threads wait for a lock nobody will release
             j = rest[0]
         self.switches.append((self.step, i, j))
+        if self.on_switch is not None:
+            self.on_switch()
         self.gates[j].release()
         if not finished:
             self.gates[i].acquire()
